@@ -479,6 +479,8 @@ func run(r *h.Run, sc scenario) result {
 	idOf := map[string]packet.ID{} // tag -> packet id (from the client's own send log)
 	firstSend := map[packet.ID]int64{}
 	saved := map[packet.ID]int64{}
+	savedRel := map[packet.ID]int64{}
+	relReported := false
 	acked := map[string]int64{} // kind|id -> seq of the scripted broker's acknowledgement (logged before it is written)
 	for _, e := range ev {
 		switch e.Kind {
@@ -488,8 +490,19 @@ func run(r *h.Run, sc scenario) result {
 					saved[p.ID] = e.Seq
 				}
 			}
+			if p, ok := e.Pkt.(*packet.Pubrel); ok {
+				if _, seen := savedRel[p.ID]; !seen {
+					savedRel[p.ID] = e.Seq
+				}
+			}
 		case "csend":
 			switch v := e.Pkt.(type) {
+			case *packet.Pubrel:
+				// the PUBREL replaces the PUBLISH in the session before it goes out
+				if s, ok := savedRel[v.ID]; (!ok || s > e.Seq) && !relReported {
+					relReported = true
+					fail("pubrel-sent-before-recorded", fmt.Sprintf("PUBREL id=%d was handed to the connection (event %d) before SavePacket(Outgoing, PUBREL) had succeeded", v.ID, e.Seq))
+				}
 			case *packet.Publish:
 				idOf[string(v.Message.Payload)] = v.ID
 				if v.Message.QOS > 0 && e.Who == "cli#1" {
